@@ -25,7 +25,7 @@ ASSUMPTIONS = ['the model/encoder in vlib/model.py is a correct reading of the N
 REQUIRED = ['contract:receiver.append_data', 'contract:segment._calculate_chunks', 'contract:file._read_data',
             'files_by_path', 'files_with_memmap', 'props_compared']
 
-N = {'quick': 16000, 'thorough': 150000}
+N = {'quick': 16000, 'thorough': 2000000}
 DIRECTED_PER_CELL = {'quick': 6, 'thorough': 60}
 
 
